@@ -71,14 +71,19 @@ def evaluate(spec, cases, traces, twins=None):
         out = common.coq_eval(src, timeout=3000)
         M = [(lo + a[0],) + tuple(a[1:]) for a in common.parse_pairs(common.parse_printed(out, "M"))]
         V = [(lo + a[0],) + tuple(a[1:]) for a in common.parse_pairs(common.parse_printed(out, "V"))]
-        return M, V
+        W = []
+        if "W =" in out:
+            W = [(lo + a[0],) + tuple(a[1:]) for a in common.parse_pairs(common.parse_printed(out, "W"))]
+        return M, V, W
     from concurrent.futures import ThreadPoolExecutor
     with ThreadPoolExecutor(max_workers=16) as ex:
         res = list(ex.map(one, jobs))
-    M, V = [], []
-    for m, v in res:
+    M, V, W = [], [], []
+    for m, v, w in res:
         M += m
         V += v
+        W += w
+    evaluate.last_model_viol = set(W)
     return M, V
 
 
@@ -286,9 +291,11 @@ def main():
         return None
 
     vio_by_case = collections.defaultdict(list)
+    model_viol = getattr(evaluate, "last_model_viol", set())
     for (ci, oi, code) in V:
         k = is_known(code)
-        if k:
+        # a known finding is the documented behaviour: the model reproduces it at the same operation
+        if k and (ci, oi, code) in model_viol:
             known_hits[k["id"]] += 1
         else:
             vio_by_case[ci].append((oi, code))
